@@ -2334,7 +2334,7 @@ def snapshot_globals():
 PASS2 = ["argcombo", "errors", "gradmode", "duck", "copies", "ownership", "interleave"]
 PASS3 = ["static", "torchb", "sig", "effects", "dispatch"]
 PASS4 = ["defaults", "modeorder", "subclass", "large"]
-PASS5 = ["poison", "dtypes", "shared_defaults", "callbacks", "propsubclass", "convties", "views"]
+PASS5 = ["poison", "dtypes", "shared_defaults", "callbacks", "propsubclass", "convties", "views", "layouts", "devices"]
 
 
 def guarded(ctx: Ctx, name, fn):
@@ -2411,6 +2411,8 @@ def _run(ctx: Ctx):
     guarded(ctx, "propsubclass", lambda: B5.stream_propsubclass(ctx))
     guarded(ctx, "convties", lambda: B5.stream_convties(ctx))
     guarded(ctx, "views", lambda: B5.stream_views(ctx))
+    guarded(ctx, "layouts", lambda: B5.stream_layouts(ctx))
+    guarded(ctx, "devices", lambda: B5.stream_devices(ctx))
     from . import util_c06b as B2
     for nm2 in PASS2:
         guarded(ctx, nm2, (lambda f: lambda: f(ctx))(getattr(B2, "stream_" + nm2)))
